@@ -160,6 +160,27 @@ var firsts = []firstUse{
 		must(err)
 		return cat(der, chainNames(chains))
 	}},
+	{"technically constrained PKI (DNS, e-mail, URI, IP name constraints on root and intermediate, SANs of every kind, EKU-restricted CA) created, pools filled from PEM, permitted and violating leaves verified with every VerifyOptions shape", func() []byte {
+		p := buildNCPKI(mon.NewRand(7, "first nc pki"), 7, burstWhen, nil, false)
+		roots, inters := smx509.NewCertPool(), smx509.NewCertPool()
+		if !roots.AppendCertsFromPEM(pemOf(p.rootDER)) || !inters.AppendCertsFromPEM(pemOf(p.interDER)) {
+			panic("c20 setup: AppendCertsFromPEM failed")
+		}
+		var out []byte
+		for li, l := range p.leaves {
+			crt, err := smx509.ParseCertificate(l.der)
+			must(err)
+			for sel := 0; sel < verifyShapes; sel++ {
+				if li > 0 && sel%4 != 0 {
+					continue
+				}
+				shape, opts := p.ncOptions(sel)
+				opts.Roots, opts.Intermediates = roots, inters
+				out = append(out, cat([]byte(l.name+" / "+shape+" -> "), verdict(crt.Verify(opts)), []byte{'\n'})...)
+			}
+		}
+		return out
+	}},
 	{"sm4.NewCipher + GCM + CCM + sm3.Kdf", func() []byte {
 		b, err := sm4.NewCipher(fixedScalar(13)[:16])
 		must(err)
